@@ -77,9 +77,11 @@ class SpartanProtocol(BaseGopherProtocol):
         return mimetype
 
     def renderobjinfo(self, entry):
-        if re.match("(/|)URL:", entry.getselector()):
-            # It's a plain URL.  Make it that.
-            url = re.match("(/|)URL:(.+)$", entry.getselector()).group(2)
+        urlmatch = re.match("(/|)URL:", entry.getselector())
+        if urlmatch:
+            # It's a plain URL.  Make it that.  (A "(.+)$" pattern does not
+            # match a selector that holds a newline or is just "URL:".)
+            url = entry.getselector()[urlmatch.end() :]
         elif (not entry.gethost()) and (not entry.getport()):
             # It's a link to our own server.  Make it as such.  (relative)
             selector = entry.getselector().encode(errors="surrogateescape")
